@@ -556,3 +556,126 @@ def make_line_repeaters(rng, nodes):
             walk(n.kids, here)
     walk(nodes, [])
     return changed[0]
+
+
+# ---------------------------------------------------------------- backslash escapes next to counters
+# Documented fact (docs.emmet.io "Abbreviations syntax", item numbering: "to output `$` as is, escape it with a
+# backslash"; upstream abbreviation tokenizer: a backslash takes the character after it literally, whatever it is,
+# and is not output itself).  So `\$` is a dollar sign and not a counter, `\\` is ONE backslash and what follows it
+# is read as if the backslash were any other character: in `\\$$` the `$$` is a `$` run of width 2.
+class Esc:
+    """An escaped character `\\c`: written backslash + c, stands for c in every copy.  It is not a counter; it
+    stands next to counters and the statement's `$`-run rule must hold around it."""
+    __slots__ = ('ch',)
+    at = True                       # a numbering token may follow directly (`\\$$` = `$` then the counter)
+
+    def __init__(self, ch):
+        self.ch = ch
+
+    def render(self):
+        return '\\' + self.ch
+
+    def value(self, counter):
+        return self.ch
+
+    def __repr__(self):
+        return 'Esc(%r)' % self.ch
+
+
+# Which characters are written escaped in which position: everything with a meaning to the abbreviation syntax
+# (the backslash and the dollar first), digits and letters; left out only what the OBSERVER of the output
+# (parse_markup) could not read back: angle brackets and quotes anywhere, braces inside an expression value, white
+# space in text (stripped by the observer) and in names.
+_ESC_COMMON = ['\\', '$', '\\', '$', '@', '-', '#', '.', '*', '+', '^', '(', ')', '[', ']', ':', ',', '!', '%', '7', '0', 'n', 'Z']
+ESCAPABLE = {
+    'name': ['\\', '$', '@', '-', '#', '.', '*', '+', ':', '7', 'n'],
+    'attrname': ['\\', '$', '@', '-', '#', '7', 'n'],
+    'id': _ESC_COMMON + ['{', '}'],
+    'class': _ESC_COMMON + ['{', '}'],
+    'text': _ESC_COMMON + ['{', '}', '/', '=', '|'],
+    'unquoted': _ESC_COMMON + ['{', '}', ' ', '/', '=', '|'],
+    'quoted': _ESC_COMMON + ['{', '}', ' ', '/', '=', '|'],
+    'expression': _ESC_COMMON + [' ', '/', '=', '|'],
+}
+
+
+def esc_position_of_kind(kind):
+    k = kind.lstrip('!')
+    return {'': 'unquoted', '"': 'quoted', "'": 'quoted', '{': 'expression'}.get(k)
+
+
+# Where the escape stands relative to the `$` run(s).  lit: a literal, c: the escaped character, f/f2: numbering tokens
+ESC_PLACEMENTS = {
+    'directly-before': lambda lit, c, f, f2: [lit, Esc(c), f],
+    'directly-after': lambda lit, c, f, f2: [lit, f, Esc(c), 'w'],
+    'between-two-runs': lambda lit, c, f, f2: [lit, f, Esc(c), f2],
+    'escaped-backslash-then-escape-before': lambda lit, c, f, f2: [lit, Esc('\\'), Esc(c), f],
+    'two-before': lambda lit, c, f, f2: [lit, Esc(c), Esc(c), f],
+    'apart': lambda lit, c, f, f2: [lit, Esc(c), 'm', f, 'w', Esc(c)],
+    'around': lambda lit, c, f, f2: [lit, Esc(c), f, Esc(c)],
+    'escape-and-no-run': lambda lit, c, f, f2: [lit, Esc(c), 'w'],
+}
+
+
+def sprinkle_tpl(rng, tpl, chars, p=0.5, keep_head=True):
+    """Insert escaped characters into a template: at the boundaries of its pieces (so that they come to stand
+    directly before and directly after `$` runs and `$#`) and inside its literals.  keep_head: nothing before
+    the first character (an element name / attribute name / unquoted value keeps its first letter)."""
+    if not tpl:
+        return tpl              # written explicitly empty stays empty
+    out = []
+    for k, p_ in enumerate(tpl):
+        if isinstance(p_, str) and len(p_) > (1 if (k == 0 and keep_head) else 0) and rng.random() < p * 0.5:
+            cut = rng.randint(1 if (k == 0 and keep_head) else 0, len(p_))
+            out.extend([x for x in (p_[:cut], Esc(rng.choice(chars)), p_[cut:]) if x != ''])
+        else:
+            out.append(p_)
+        here_is_tok = not isinstance(p_, str)
+        next_is_tok = k + 1 < len(tpl) and not isinstance(tpl[k + 1], str)
+        if (here_is_tok or next_is_tok) and rng.random() < p:
+            out.append(Esc(rng.choice(chars)))
+            if rng.random() < 0.3:
+                out.append(Esc(rng.choice(chars)))
+    return out
+
+
+def sprinkle_escapes(rng, nodes, p=0.5):
+    """Escaped characters in every template of a forest (names, ids, classes, attribute names and values of every
+    kind that has a value, text).  -> number of templates changed."""
+    changed = 0
+    for n in nodes:
+        if isinstance(n, Group):
+            changed += sprinkle_escapes(rng, n.items, p)
+            continue
+        def go(tpl, pos, keep_head=True):
+            nonlocal changed
+            if tpl and rng.random() < p:
+                new = sprinkle_tpl(rng, tpl, ESCAPABLE[pos], keep_head=keep_head)
+                if len(new) != len(tpl):
+                    changed += 1
+                return new
+            return tpl
+        if n.name:
+            n.name = go(n.name, 'name')
+        if n.id is not None:
+            n.id = go(n.id, 'id', False)
+        n.classes = [go(c, 'class', False) for c in n.classes]
+        attrs = []
+        for an, av, kind in n.attrs:
+            pos = esc_position_of_kind(kind)
+            attrs.append((go(an, 'attrname'), go(av, pos, pos == 'unquoted') if pos else av, kind))
+        n.attrs = attrs
+        if n.text is not None:
+            n.text = go(n.text, 'text', False)
+        fix_el(n)
+        changed += sprinkle_escapes(rng, n.kids, p)
+    return changed
+
+
+def tpl_has_esc(tpl):
+    return any(isinstance(p, Esc) for p in (tpl or ()))
+
+
+def el_has_esc(el):
+    return tpl_has_esc(el.name) or tpl_has_esc(el.id) or any(tpl_has_esc(c) for c in el.classes) or \
+        any(tpl_has_esc(a) or tpl_has_esc(v) for a, v, _ in el.attrs) or tpl_has_esc(el.text)
